@@ -1,27 +1,22 @@
-// The "store" family of the C10 harness: the command vocabulary, encoders, result and dump
-// projections of harness/store/main.go (same JSON shapes, so that checks/storelib.py and
-// coq/Run/Store.v evaluate these histories against coq/Store/Model.v unchanged).
+// The core command universe, ported from harness/store (properties C03-C05): the commands that
+// coq/Store/Model.v models, their generator, and the projection of implementation results and of
+// the store into the model's vocabulary. Used for the histories replayed through Store.Model.run.
 package main
 
 import (
 	"encoding/hex"
 	"fmt"
+	"math/rand"
 	"reflect"
 	"sort"
 	"strings"
 	"time"
 
-	"github.com/hashicorp/go-hclog"
-	"github.com/hashicorp/raft"
-
-	"github.com/hashicorp/consul/agent/consul/fsm"
 	"github.com/hashicorp/consul/agent/consul/state"
-	"github.com/hashicorp/consul/agent/consul/stream"
 	"github.com/hashicorp/consul/agent/structs"
 	"github.com/hashicorp/consul/api"
 	"github.com/hashicorp/consul/types"
 )
-
 
 // ---------------------------------------------------------------- command description (JSON)
 
@@ -170,40 +165,21 @@ type Res struct {
 	Results []TRes   `json:"results,omitempty"`
 	Errors  [][2]any `json:"errors,omitempty"` // [op index, enum name]
 }
+// ---------------------------------------------------------------- universe
 
-// ---------------------------------------------------------------- recording publisher
-
-type recPublisher struct{ events int }
-
-func (r *recPublisher) Publish(e []stream.Event) { r.events += len(e) }
-func (r *recPublisher) RegisterHandler(stream.Topic, stream.SnapshotFunc, bool) error {
-	return nil
-}
-func (r *recPublisher) Subscribe(*stream.SubscribeRequest) (*stream.Subscription, error) {
-	return nil, fmt.Errorf("not supported")
-}
-
-// ---------------------------------------------------------------- the implementation under test
-
-type impl struct {
-	f   *fsm.FSM
-	pub *recPublisher
-}
-
-func newImpl() *impl {
-	pub := &recPublisher{}
-	f := fsm.NewFromDeps(fsm.Deps{
-		Logger: hclog.NewNullLogger(),
-		NewStateStore: func() *state.Store {
-			return state.NewStateStoreWithEventPublisher(nil, pub)
-		},
-		StorageBackend: fsm.NullStorageBackend,
-	})
-	return &impl{f: f, pub: pub}
-}
-
-func (im *impl) store() *state.Store { return im.f.State() }
-
+var (
+	nodeNames = []string{"n1", "n2", "n3"}
+	nodeIDs   = []string{"", "11111111-1111-1111-1111-111111111111", "22222222-2222-2222-2222-222222222222", "33333333-3333-3333-3333-333333333333"}
+	svcIDs    = []string{"s1", "s2"}
+	svcNames  = []string{"web", "db"}
+	checkIDs  = []string{"c1", "c2", "serfHealth", "sc1"}
+	sessIDs   = []string{"aaaaaaaa-aaaa-aaaa-aaaa-aaaaaaaaaaaa", "bbbbbbbb-bbbb-bbbb-bbbb-bbbbbbbbbbbb", "cccccccc-cccc-cccc-cccc-cccccccccccc", "dddddddd-dddd-dddd-dddd-dddddddddddd"}
+	sessNames = []string{"", "lockA", "lockB"}
+	keys      = []string{"a", "a/", "a/b", "ab", "b", "é"}
+	prefixes  = []string{"", "a", "a/", "b", "zz"}
+	values    = [][]byte{{}, {1, 2, 3}, {255, 0}}
+	queryIDs  = []string{"99999999-9999-9999-9999-999999999991", "99999999-9999-9999-9999-999999999992"}
+)
 func dirEnt(q *KVReq) structs.DirEntry {
 	v, _ := hex.DecodeString(q.Value)
 	if len(v) == 0 {
@@ -227,8 +203,7 @@ func healthCheck(c *CheckReq) *structs.HealthCheck {
 }
 
 func addrOf(n int) string { return fmt.Sprintf("10.0.0.%d", n) }
-
-func encode(c *Cmd) []byte {
+func encodeCore(c *Cmd) []byte {
 	var t structs.MessageType
 	var msg interface{}
 	switch c.Kind {
@@ -384,11 +359,9 @@ func checkRow(c *structs.HealthCheck) CheckRow {
 		SessType: c.Type == "session", SessName: c.Definition.SessionName, OutKind: k, OutN: n, OutSid: sid,
 		C: c.CreateIndex, M: c.ModifyIndex}
 }
-
-func (im *impl) dump() Dump {
+func projectDump(st *state.Store) Dump {
 	d := Dump{KVs: []KVRow{}, Tombs: [][2]string{}, Sessions: []SessRow{}, SChecks: [][3]string{}, Queries: [][2]string{},
 		Nodes: []NodeRow{}, Services: []SvcRow{}, Checks: []CheckRow{}, Index: [][2]string{}, Delay: []string{}}
-	st := im.store()
 	st.WalkAllTables(func(table string, item interface{}) bool {
 		switch v := item.(type) {
 		case *structs.DirEntry:
@@ -426,12 +399,7 @@ func (im *impl) dump() Dump {
 		}
 		return true
 	})
-	now := time.Now()
-	for _, k := range keys {
-		if st.KVSLockDelay(k, nil).After(now) {
-			d.Delay = append(d.Delay, k)
-		}
-	}
+	// the lock-delay map is local, wall-clock state: not part of the projection (C01 compares repl only)
 	sort.Slice(d.KVs, func(i, j int) bool { return d.KVs[i].K < d.KVs[j].K })
 	sort.Slice(d.Tombs, func(i, j int) bool { return d.Tombs[i][0] < d.Tombs[j][0] })
 	sort.Slice(d.Sessions, func(i, j int) bool { return d.Sessions[i].ID < d.Sessions[j].ID })
@@ -444,8 +412,7 @@ func (im *impl) dump() Dump {
 	return d
 }
 
-func (im *impl) apply(c *Cmd) Res {
-	out := im.f.Apply(&raft.Log{Index: c.Idx, Term: 1, Type: raft.LogCommand, Data: encode(c)})
+func projectResult(out interface{}) Res {
 	switch v := out.(type) {
 	case nil:
 		return Res{Kind: "nil"}
@@ -480,4 +447,363 @@ func (im *impl) apply(c *Cmd) Res {
 	}
 	return Res{Kind: "err", Err: fmt.Sprintf("EOther:unexpected result type %T", out)}
 }
+// ---------------------------------------------------------------- generator
 
+type coreGen struct {
+	rng  *rand.Rand
+	r    *replica
+	idx  uint64
+	mix  string
+	safe bool // generate transaction ops that are likely to succeed
+}
+
+func (g *coreGen) pick(xs []string) string { return xs[g.rng.Intn(len(xs))] }
+
+// casIndex: 0, current (~65%), stale, future, resolved against the implementation's state.
+func (g *coreGen) casIndex(cur uint64) uint64 {
+	switch r := g.rng.Intn(20); {
+	case r < 13:
+		return cur
+	case r < 15:
+		return 0
+	case r < 18:
+		if cur > 1 {
+			return cur - 1
+		}
+		return cur + 3
+	default:
+		return g.idx + 5
+	}
+}
+
+func (g *coreGen) curKV(k string) *structs.DirEntry {
+	_, e, _ := g.r.store().KVSGet(nil, k, nil)
+	return e
+}
+
+func (g *coreGen) existingKeys() []string {
+	_, es, _ := g.r.store().KVSList(nil, "", nil)
+	var out []string
+	for _, e := range es {
+		out = append(out, e.Key)
+	}
+	return out
+}
+
+func (g *coreGen) existingNodes() []string {
+	_, ns, _ := g.r.store().Nodes(nil, nil, "")
+	var out []string
+	for _, n := range ns {
+		out = append(out, n.Node)
+	}
+	return out
+}
+
+func (g *coreGen) nodeName() string {
+	if ex := g.existingNodes(); len(ex) > 0 && g.rng.Intn(6) > 0 {
+		return ex[g.rng.Intn(len(ex))]
+	}
+	return g.pick(nodeNames)
+}
+
+func (g *coreGen) liveSessions() []string {
+	_, ss, _ := g.r.store().SessionList(nil, nil)
+	var out []string
+	for _, s := range ss {
+		out = append(out, s.ID)
+	}
+	return out
+}
+
+func (g *coreGen) session() string {
+	live := g.liveSessions()
+	switch r := g.rng.Intn(20); {
+	case r < 16 && len(live) > 0:
+		return live[g.rng.Intn(len(live))]
+	case r < 17:
+		return ""
+	default:
+		return g.pick(sessIDs)
+	}
+}
+
+func (g *coreGen) kvReq(verb string) *KVReq {
+	q := &KVReq{Key: g.pick(keys), Value: hex.EncodeToString(values[g.rng.Intn(len(values))])}
+	if g.rng.Intn(3) == 0 {
+		q.Flags = 7
+	}
+	switch verb {
+	case "get", "check-session", "check-index", "unlock", "delete-cas", "cas":
+		if ex := g.existingKeys(); len(ex) > 0 && g.rng.Intn(5) > 0 {
+			q.Key = ex[g.rng.Intn(len(ex))]
+		}
+	case "check-not-exists":
+		if g.rng.Intn(3) > 0 {
+			for _, k := range keys {
+				if g.curKV(k) == nil {
+					q.Key = k
+				}
+			}
+		}
+	}
+	cur := g.curKV(q.Key)
+	var curIdx uint64
+	if cur != nil {
+		curIdx = cur.ModifyIndex
+	}
+	switch verb {
+	case "delete-tree", "get-tree":
+		q.Key = g.pick(prefixes)
+	case "cas", "delete-cas", "check-index":
+		q.Index = g.casIndex(curIdx)
+	case "lock", "unlock", "check-session":
+		q.Session = g.session()
+		if cur != nil && cur.Session != "" && g.rng.Intn(2) == 0 {
+			q.Session = cur.Session
+		}
+	case "set":
+		// a plain set stores the request's lock index and may repeat the current content
+		if cur != nil && g.rng.Intn(3) == 0 {
+			q.Value, q.Flags, q.Lock = hex.EncodeToString(cur.Value), cur.Flags, cur.LockIndex
+		} else if g.rng.Intn(4) == 0 {
+			q.Lock = uint64(g.rng.Intn(3))
+		}
+	}
+	return q
+}
+
+var kvWriteVerbs = []string{"set", "set", "cas", "delete", "delete-cas", "delete-tree", "lock", "lock", "unlock"}
+var kvTxnVerbs = []string{"set", "cas", "delete", "delete-cas", "delete-tree", "lock", "unlock", "get", "get-or-empty", "get-tree", "check-session", "check-index", "check-not-exists"}
+
+func (g *coreGen) checkReq(node string) CheckReq {
+	c := CheckReq{Node: node, ID: g.pick(checkIDs), Status: g.rng.Intn(3), Output: g.rng.Intn(2)}
+	if g.rng.Intn(3) == 0 {
+		c.Service = g.pick(svcIDs)
+	}
+	if c.ID == "sc1" {
+		c.SessType = true
+		c.SessName = g.pick(sessNames[1:])
+		c.Service = ""
+	}
+	if c.ID == "serfHealth" {
+		c.Service = ""
+	}
+	_, cur, _ := g.r.store().NodeCheck(node, types.CheckID(c.ID), nil, "")
+	var curIdx uint64
+	if cur != nil {
+		curIdx = cur.ModifyIndex
+	}
+	c.Index = g.casIndex(curIdx)
+	return c
+}
+
+func (g *coreGen) nodeIdx(name string) uint64 {
+	_, n, _ := g.r.store().GetNode(name, nil, "")
+	if n != nil {
+		return n.ModifyIndex
+	}
+	return 0
+}
+func (g *coreGen) svcIdx(node, id string) uint64 {
+	_, s, _ := g.r.store().NodeService(nil, node, id, nil, "")
+	if s != nil {
+		return s.ModifyIndex
+	}
+	return 0
+}
+
+func (g *coreGen) txnOp() TxnOp {
+	w := 10
+	if g.mix == "kv" {
+		w = 25
+	}
+	if g.safe {
+		switch r := g.rng.Intn(10); {
+		case r < 6:
+			v := g.pick([]string{"set", "set", "get-or-empty", "get-tree", "delete", "delete-tree", "cas", "check-index", "get", "lock", "unlock"})
+			q := g.kvReq(v)
+			if cur := g.curKV(q.Key); cur != nil && (v == "cas" || v == "check-index") {
+				q.Index = cur.ModifyIndex
+			} else if v == "cas" {
+				q.Index = 0
+			}
+			if live := g.liveSessions(); (v == "lock" || v == "unlock") && len(live) == 0 {
+				v = "set"
+			}
+			return TxnOp{Kind: "kv", Verb: v, KV: q}
+		case r < 7:
+			n := g.nodeName()
+			id := ""
+			if _, nn, _ := g.r.store().GetNode(n, nil, ""); nn != nil {
+				id = string(nn.ID)
+			}
+			return TxnOp{Kind: "node", Verb: g.pick([]string{"set", "delete"}), Node: n, ID: id, Addr: 1 + g.rng.Intn(2)}
+		case r < 9:
+			c := g.checkReq(g.nodeName())
+			c.Service = ""
+			return TxnOp{Kind: "check", Verb: g.pick([]string{"set", "set", "delete"}), Check: &c}
+		default:
+			if live := g.liveSessions(); len(live) > 0 {
+				return TxnOp{Kind: "session", Verb: "delete", Sid: live[g.rng.Intn(len(live))]}
+			}
+			n := g.nodeName()
+			si := g.rng.Intn(len(svcIDs))
+			return TxnOp{Kind: "service", Verb: "set", Node: n, Svc: svcIDs[si], Name: svcNames[si], Port: 80 + g.rng.Intn(2)}
+		}
+	}
+	switch r := g.rng.Intn(w + 10); {
+	case r < w:
+		v := g.pick(kvTxnVerbs)
+		return TxnOp{Kind: "kv", Verb: v, KV: g.kvReq(v)}
+	case r < w+3:
+		n := g.nodeName()
+		return TxnOp{Kind: "node", Verb: g.pick([]string{"get", "set", "cas", "delete", "delete-cas"}), Node: n, ID: g.pick(nodeIDs), Addr: 1 + g.rng.Intn(2), Index: g.casIndex(g.nodeIdx(n))}
+	case r < w+5:
+		n := g.nodeName()
+		si := g.rng.Intn(len(svcIDs))
+		return TxnOp{Kind: "service", Verb: g.pick([]string{"get", "set", "cas", "delete", "delete-cas"}), Node: n, Svc: svcIDs[si], Name: svcNames[si], Port: 80 + g.rng.Intn(2), Index: g.casIndex(g.svcIdx(n, svcIDs[si]))}
+	case r < w+8:
+		c := g.checkReq(g.nodeName())
+		return TxnOp{Kind: "check", Verb: g.pick([]string{"get", "set", "set", "cas", "delete", "delete-cas"}), Check: &c}
+	default:
+		return TxnOp{Kind: "session", Verb: "delete", Sid: g.session()}
+	}
+}
+
+func (g *coreGen) next() Cmd {
+	g.idx += uint64(1 + g.rng.Intn(3))
+	c := Cmd{Idx: g.idx}
+	weights := map[string][]int{
+		//            kvs sess+ sess- reg dereg txn reap q+ q-
+		"kv":      {50, 6, 4, 8, 3, 14, 4, 1, 1},
+		"session": {22, 14, 8, 18, 10, 12, 2, 5, 2},
+		"txn":     {15, 8, 3, 12, 4, 40, 2, 2, 1},
+	}[g.mix]
+	tot := 0
+	for _, w := range weights {
+		tot += w
+	}
+	r := g.rng.Intn(tot)
+	k := 0
+	for ; k < len(weights); k++ {
+		if r < weights[k] {
+			break
+		}
+		r -= weights[k]
+	}
+	// make sure something exists early on
+	if len(g.existingNodes()) == 0 && g.rng.Intn(3) > 0 {
+		k = 3
+	}
+	switch k {
+	case 0:
+		c.Kind = "kvs"
+		c.Verb = g.pick(kvWriteVerbs)
+		if (c.Verb == "lock" || c.Verb == "unlock") && len(g.liveSessions()) == 0 && g.rng.Intn(4) > 0 {
+			c.Verb = "set"
+		}
+		c.KV = g.kvReq(c.Verb)
+	case 1:
+		c.Kind = "session_create"
+		c.Sid = g.pick(sessIDs)
+		// the endpoint always picks a fresh id: avoid live ones most of the time
+		for tries := 0; tries < 4; tries++ {
+			live := false
+			for _, l := range g.liveSessions() {
+				if l == c.Sid {
+					live = true
+				}
+			}
+			if !live || g.rng.Intn(10) == 0 {
+				break
+			}
+			c.Sid = g.pick(sessIDs)
+		}
+		c.Node = g.nodeName()
+		c.Name = g.pick(sessNames)
+		c.Delete = g.rng.Intn(3) == 0
+		c.Delay = g.rng.Intn(2) == 0
+		_, ncs, _ := g.r.store().NodeChecks(nil, c.Node, nil, "")
+		for _, hc := range ncs {
+			if g.rng.Intn(3) == 0 && (hc.Status != api.HealthCritical || g.rng.Intn(6) == 0) {
+				c.Checks = append(c.Checks, string(hc.CheckID))
+			}
+		}
+		if g.rng.Intn(12) == 0 {
+			c.Checks = append(c.Checks, g.pick(checkIDs))
+		}
+	case 2:
+		c.Kind = "session_destroy"
+		c.Sid = g.session()
+	case 3:
+		c.Kind = "register"
+		c.Node = g.pick(nodeNames)
+		if g.rng.Intn(2) == 0 {
+			c.Node = g.nodeName()
+		}
+		c.ID = g.pick(nodeIDs)
+		if g.rng.Intn(3) > 0 { // usually keep a node's own id
+			_, n, _ := g.r.store().GetNode(c.Node, nil, "")
+			if n != nil {
+				c.ID = string(n.ID)
+			}
+		}
+		c.Addr = 1 + g.rng.Intn(2)
+		c.Skip = g.rng.Intn(8) == 0
+		if g.rng.Intn(2) == 0 {
+			si := g.rng.Intn(len(svcIDs))
+			c.HasSvc, c.Svc, c.SvcName, c.Port = true, svcIDs[si], svcNames[si], 80+g.rng.Intn(2)
+		}
+		for n := g.rng.Intn(3); n > 0; n-- {
+			ck := g.checkReq(c.Node)
+			if g.rng.Intn(15) == 0 {
+				ck.Node = g.pick(nodeNames)
+			}
+			c.RegCheck = append(c.RegCheck, ck)
+		}
+	case 4:
+		c.Kind = "deregister"
+		c.Node = g.nodeName()
+		switch g.rng.Intn(3) {
+		case 0:
+			c.Svc = g.pick(svcIDs)
+		case 1:
+			c.CheckID = g.pick(checkIDs)
+		}
+	case 5:
+		c.Kind = "txn"
+		n := 1 + g.rng.Intn(3) + g.rng.Intn(3)*g.rng.Intn(2)
+		g.safe = g.rng.Intn(5) < 3
+		for i := 0; i < n; i++ {
+			c.Ops = append(c.Ops, g.txnOp())
+		}
+	case 6:
+		c.Kind = "reap"
+		c.Upto = g.idx - uint64(g.rng.Intn(8))
+	case 7:
+		c.Kind = "query_set"
+		c.Qid = g.pick(queryIDs)
+		c.Sid = g.session()
+	case 8:
+		c.Kind = "query_delete"
+		c.Qid = g.pick(queryIDs)
+	}
+	return c
+}
+
+
+// coreEntry turns a model-vocabulary command into a log entry.
+func coreEntry(c *Cmd) Entry {
+	data := encodeCore(c)
+	kind := c.Kind
+	if c.Kind == "kvs" {
+		kind = "kvs:" + c.Verb
+	}
+	cc := *c
+	return Entry{Idx: c.Idx, Kind: kind, Type: int(data[0]), Data: hex.EncodeToString(data), Model: &cc}
+}
+
+var _ = rand.Int
+var _ = reflect.TypeOf
+var _ = strings.Contains
+var _ = time.Second
